@@ -407,11 +407,11 @@ fn topn_case(seed: u64, i: u64) -> Case {
 /// `SELECT id, w0, w1 FROM t [ORDER BY <window order>] LIMIT n [OFFSET m]` with causal / look-ahead windows
 fn limit_case(seed: u64, i: u64) -> Case {
     let mut rng = Rng::derive(seed, &[4, i]);
-    let max_rows = *rng.pick(&[8usize, 20, 50]);
-    let table = gen_table(&mut rng, max_rows, false);
     // every second case: the shape under which the pushed-down fetch meets a hash repartition
     // (PARTITION BY, no outer ORDER BY, several source / target partitions, small LIMIT)
     let focused = i % 2 == 1;
+    let max_rows = if focused { 60 } else { *rng.pick(&[8usize, 20, 50]) };
+    let table = gen_table(&mut rng, max_rows, false);
     let partition_by = if focused || rng.chance(1, 4) { vec![C_P] } else { vec![] };
     let mut order_by = vec![];
     if rng.chance(3, 4) {
@@ -433,8 +433,13 @@ fn limit_case(seed: u64, i: u64) -> Case {
         };
         let frame = if f.uses_frame() {
             let pair = *rng.pick(&[("UP", "CR"), ("kP", "CR"), ("kP", "kF"), ("CR", "kF"), ("UP", "kF"), ("kP", "kP"), ("kF", "kF")]);
-            let unit = if rng.chance(4, 5) { Unit::Rows } else { Unit::Groups };
+            let unit = if focused || rng.chance(4, 5) { Unit::Rows } else { Unit::Groups };
             Some(mk_frame(&mut rng, unit, pair))
+        } else if focused || rng.chance(3, 4) {
+            // the rewrite only looks through windows whose frame is written in ROWS (the frame is
+            // irrelevant for these functions)
+            let pair = *rng.pick(&[("UP", "CR"), ("kP", "CR"), ("CR", "kF"), ("kP", "kF")]);
+            Some(mk_frame(&mut rng, Unit::Rows, pair))
         } else {
             None
         };
